@@ -45,7 +45,8 @@ def trace_filter(code):
 
 
 def execute(script_name, api, chooser, stall=True, rerun=False, gate_points=None, window=None):
-    background = api.startswith('bg:')
+    background = api.startswith(('bg:', 'bgonly:'))
+    with_follower = not api.startswith('bgonly:')
     base_api = api.split(':')[-1]
     gate_points = GATE_POINTS if gate_points is None else gate_points
     window = WINDOW_AFTER_STOP if window is None else window
@@ -140,7 +141,8 @@ def execute(script_name, api, chooser, stall=True, rerun=False, gate_points=None
         rq.start()
         agent_box[0] = jc.spawn_job(job, 'j') if background else jc.add_job(job, 'j')
         gate['armed'] = True
-        jc.add_job(follower, 'f')
+        if with_follower:
+            jc.add_job(follower, 'f')
         for _ in range(int(HORIZON) + 5):
             if not jc.has_jobs():
                 break
@@ -165,6 +167,7 @@ def execute(script_name, api, chooser, stall=True, rerun=False, gate_points=None
 
 def judge(script_name, api, obs, rerun=False):
     """-> None | (kind, detail)"""
+    with_follower = not api.startswith('bgonly:')
     api = api.split(':')[-1]
     ev = obs['events']
     what = [e[2] for e in ev]
@@ -216,6 +219,8 @@ def judge(script_name, api, obs, rerun=False):
         pass        # the first job had ended and the follower was the current job: it was the target
     elif api == 'stop_all' and not f_started:
         pass        # cleared from the queue before it started: stop-all leaves nothing to start
+    elif not with_follower:
+        pass
     elif len(f_cmds) != 2:
         return ('follower-did-not-run-normally', '%d of 2 commands, started=%r' % (len(f_cmds), f_started))
     if obs['final'] is None or obs['final']['has_jobs']:
@@ -285,7 +290,7 @@ def plan(tier):
     out.append(('straight', 'stop_current', 0 if tier == 'quick' else 1, 1 if tier == 'quick' else 16, True, 260, 40))
     # the script as a background job (spawn_job) next to a queued follower
     for s in ('infinite', 'timed', 'time-of-day'):
-        for api in ('bg:stop_job', 'bg:stop_all'):
+        for api in ('bg:stop_job', 'bg:stop_all', 'bgonly:stop_all', 'bgonly:stop_job'):
             out.append((s, api, 0 if tier == 'quick' else 1, 1 if tier == 'quick' else 16, False, GATE_POINTS, WINDOW_AFTER_STOP))
     if tier == 'thorough':
         out.append(('timed', 'stop_job', 2, 16, False, 24, 20))
